@@ -214,6 +214,7 @@ func (x *Exec) named(st *State, hint, term, sortName string) string {
 	c := x.freshConst("v_"+hint, sortName)
 	st.pc = append(st.pc, app("=", c, term))
 	st.names[term] = c
+	st.nameLog = append(st.nameLog, term, c)
 	return c
 }
 
